@@ -656,6 +656,8 @@ dt_conv_to_yd(struct dt_d_s this)
 		return __ymcw_to_yd(this.ymcw);
 	case DT_YWD:
 		return __ywd_to_yd(this.ywd);
+	case DT_BIZDA:
+		return __ymd_to_yd(__bizda_to_ymd(this.bizda));
 	case DT_UMMULQURA:
 		this.ldn = __ummulqura_to_ldn(this.ummulqura);
 		goto ldn;
